@@ -159,6 +159,13 @@ class SimKw(_Base):
 
 KINDS = {'full': (SimFull, True), 'old': (SimOld, False), 'oldstep': (SimOldStep, False), 'kw': (SimKw, True)}
 
+ATTR = {'full': 'SimFull', 'old': 'SimOld', 'oldstep': 'SimOldStep', 'kw': 'SimKw'}   # module attribute names (sim_config)
+
+# all stub classes carry the same class name (as classes called `Sim` from different packages would): nothing in mosaik may
+# key a decision on the bare class name
+for _c, _ in KINDS.values():
+    _c.__name__ = 'Sim'
+
 
 def lex_ge(comps, ref):
     """list comparison comps >= ref (ref: concrete list) as a term; lists of different lengths compare like Python lists"""
@@ -184,7 +191,7 @@ def list_eq(a, b):
     return b_and(*[_eq(x, y) for x, y in zip(a, b)])
 
 
-def adapt(kind, ncomp, explicit, has_type):
+def adapt(kind, ncomp, explicit, has_type, twin_first=False):
     """kind: signature kind; ncomp: 0 (no api_version in meta) | 1..3; explicit: 'none' | 'same' | 'other1'..'other3';
     has_type: whether meta carries a type."""
     cls, compliant = KINDS[kind]
@@ -196,7 +203,7 @@ def adapt(kind, ncomp, explicit, has_type):
         if ncomp:
             version, comps = mk_version(eng, 'v', ncomp)
         eff = comps if comps is not None else [1]
-        cfg = {'python': f'vk.kernels.c15:{cls.__name__}'}
+        cfg = {'python': f'vk.kernels.c15:{ATTR[kind]}'}
         exp_comps = None
         if explicit == 'same':
             cfg['api_version'] = version if version is not None else '1'
@@ -204,8 +211,8 @@ def adapt(kind, ncomp, explicit, has_type):
         elif explicit.startswith('other'):
             ev, exp_comps = mk_version(eng, 'x', int(explicit[5:]))
             cfg['api_version'] = ev
-        fp = [kind, ncomp, explicit, has_type]
-        desc = f'signatures={kind} version components={ncomp} configured api_version={explicit} type in meta={has_type}'
+        fp = [kind, ncomp, explicit, has_type, twin_first]
+        desc = f'twin_first={twin_first} signatures={kind} version components={ncomp} configured api_version={explicit} type in meta={has_type}'
         # ---- oracle
         too_new = lex_ge(eff, [4])
         claims_v3 = lex_ge(eff, [3])
@@ -224,8 +231,15 @@ def adapt(kind, ncomp, explicit, has_type):
                     kw['version'] = version
                 if has_type:
                     kw['typ'] = 'time-based'
+                p = None
+                if twin_first:
+                    # a current-version simulator (class of the same name) is started before the one under test
+                    p = w.start('T', sim_id='P', version='3.0', typ='time-based')
                 try:
                     x = w.start('X', sim_id='X', **kw)
+                except TypeError as e:
+                    eng.alarm('C15.crash', f'start() failed with TypeError (a request not valid for this simulator was sent): {str(e)[:120]}: {desc}', {'fp': fp})
+                    return ('crash', {'nontrivial': True})
                 except ScenarioError as e:
                     ok = eng.check(b_or(must_reject, no_type), 'C15.reject', f'start() rejected a simulator that must be accepted: {desc}: {str(e)[:160]}', {'fp': fp})
                     return ('rejected', {'nontrivial': True})
@@ -236,7 +250,8 @@ def adapt(kind, ncomp, explicit, has_type):
                           f'time_resolution passed={sx.calls[0][1]} but signatures compliant={compliant}: {desc}', {'fp': fp})
                 eng.check(w.sims['X'].type == 'time-based', 'C15.type', f'type is {w.sims["X"].type}: {desc}', {'fp': fp})
                 # a current-version twin in the same scenario, both fed by a producer
-                p = w.start('T', sim_id='P', version='3.0', typ='time-based')
+                if p is None:
+                    p = w.start('T', sim_id='P', version='3.0', typ='time-based')
                 t = w.start('T', sim_id='T', version='3.0', typ='time-based')
                 pe, xe, te = p.M(), x.M(), t.M()
                 w.connect(pe, xe, ('o', 'i'))
@@ -284,4 +299,8 @@ def jobs(tier):
                 for has_type in (True, False):
                     out.append({'id': f'adapt|{kind}|n{ncomp}|{explicit}|type={int(has_type)}', 'harness': 'vk.kernels.c15:adapt',
                                 'params': {'kind': kind, 'ncomp': ncomp, 'explicit': explicit, 'has_type': has_type}, 'budget_s': 200})
+                    if explicit == 'none' and has_type:
+                        out.append({'id': f'adapt|{kind}|n{ncomp}|{explicit}|type={int(has_type)}|twin_first', 'harness': 'vk.kernels.c15:adapt',
+                                    'params': {'kind': kind, 'ncomp': ncomp, 'explicit': explicit, 'has_type': has_type, 'twin_first': True},
+                                    'budget_s': 200})
     return out
